@@ -17,6 +17,7 @@ import Mahotas.Proofs.C18Interp45
 import Mahotas.Proofs.C18Border
 import Mahotas.Proofs.C18Shape
 import Mahotas.Proofs.C18Array
+import Mathlib.Analysis.SpecialFunctions.Pow.Real
 import Mathlib.Data.Rat.Floor
 import Mahotas.Proofs.Modes
 
@@ -1398,3 +1399,28 @@ theorem C18_driver_prefilter_instance (order : Nat) (im : Img Float) :
 example : (splineFilter 1 { shape := [2], data := #[1.0, 2.0] }).shape = [2] ∧
     (filterAxis 3 { shape := [1], data := #[1.0] } 0).shape = [1] := by
   constructor <;> rfl
+
+/-- non-vacuity of the pole hypotheses of the interpolation theorems: over ℝ the code's poles `√8 − 3` (order 2) and
+`√3 − 2` (order 3) are exact roots of `z² + 6z + 1` / `z² + 4z + 1`, different from 0 and from ±1 -/
+example : (∃ z : ℝ, z * z + 6 * z + 1 = 0 ∧ z * z - 1 ≠ 0 ∧ z ≠ 0) ∧
+    (∃ z : ℝ, z * z + 4 * z + 1 = 0 ∧ z * z - 1 ≠ 0 ∧ z ≠ 0) := by
+  have sq : ∀ a : ℝ, 0 ≤ a → Real.sqrt a * Real.sqrt a = a := fun a ha => Real.mul_self_sqrt ha
+  have lt : ∀ a b : ℝ, 0 ≤ a → a < b → Real.sqrt a < Real.sqrt b := fun a b ha hab => Real.sqrt_lt_sqrt ha hab
+  have s4 : Real.sqrt 4 = 2 := by
+    rw [show (4 : ℝ) = 2 ^ 2 by norm_num, Real.sqrt_sq (by norm_num)]
+  have s9 : Real.sqrt 9 = 3 := by
+    rw [show (9 : ℝ) = 3 ^ 2 by norm_num, Real.sqrt_sq (by norm_num)]
+  have s1 : Real.sqrt 1 = 1 := Real.sqrt_one
+  constructor
+  · have h := sq 8 (by norm_num)
+    have h2 : (2 : ℝ) < Real.sqrt 8 := by rw [← s4]; exact lt 4 8 (by norm_num) (by norm_num)
+    have h3 : Real.sqrt 8 < 3 := by rw [← s9]; exact lt 8 9 (by norm_num) (by norm_num)
+    refine ⟨Real.sqrt 8 - 3, by nlinarith [h], ?_, by linarith⟩
+    intro e
+    nlinarith [h, h2, h3]
+  · have h := sq 3 (by norm_num)
+    have h2 : (1 : ℝ) < Real.sqrt 3 := by rw [← s1]; exact lt 1 3 (by norm_num) (by norm_num)
+    have h3 : Real.sqrt 3 < 2 := by rw [← s4]; exact lt 3 4 (by norm_num) (by norm_num)
+    refine ⟨Real.sqrt 3 - 2, by nlinarith [h], ?_, by linarith⟩
+    intro e
+    nlinarith [h, h2, h3]
